@@ -69,6 +69,17 @@ class PBlock:
         return f"PBlock({self.id},{self.w}x{self.h},+{self.l},{self.t},{self.r},{self.b})"
 
 
+class Placement:
+    """a complete graphics-protocol image transmission + placement, as summarised by the contract of the function that
+    builds it (kitty: Transmission.get_chunks, proved separately; iTerm2: one OSC 1337 File command)"""
+
+    def __init__(self, kind, c, r, moves_cursor=False, meta=None):
+        self.kind, self.c, self.r, self.moves_cursor, self.meta = kind, c, r, moves_cursor, meta or {}
+
+    def __repr__(self):
+        return f"Placement({self.kind},{self.c}x{self.r})"
+
+
 class Payload:
     def __init__(self, tag, lo, hi):
         self.tag, self.lo, self.hi = tag, lo, hi
@@ -124,7 +135,7 @@ class TS:
                 r = Or(r, to_z3(it.n) > 0 if is_sym(it.n) else it.n > 0)
             elif isinstance(it, Rep):
                 r = Or(r, And(it.ts.truth(), to_z3(it.n) > 0 if is_sym(it.n) else it.n > 0))
-            elif isinstance(it, (Block, PBlock)):
+            elif isinstance(it, (Block, PBlock, Placement)):
                 return True
             elif isinstance(it, Payload):
                 r = Or(r, to_z3(it.hi) > to_z3(it.lo))
@@ -156,7 +167,7 @@ def as_ts(v):
         return TS([OpaqueS(v.why)])
     if isinstance(v, EnumV) and isinstance(v.value, str):
         return TS([v.value])
-    if isinstance(v, (IntDec, Text, Rep, Block, PBlock, Payload, Cond, OpaqueS)):
+    if isinstance(v, (IntDec, Text, Rep, Block, PBlock, Placement, Payload, Cond, OpaqueS)):
         return TS([v])
     raise Unsupported(f"cannot render {v!r} into a string")
 
@@ -313,7 +324,7 @@ def vt_new(row, col, bottom, TW, TH, **extra):
              cmd_open=False, sync=z3.BoolVal(False), parser="ground", nl=z3.IntVal(0), line_idx=z3.IntVal(0),
              # accounting of the line being built (since last NL or start)
              line_w=z3.IntVal(0), written=z3.IntVal(0), skipped=z3.IntVal(0), blk_col=z3.IntVal(-1), blk_line=z3.IntVal(-1),
-             blk_id=z3.IntVal(-1), ech_to=z3.IntVal(-1), irregular=z3.BoolVal(False), last_nl=z3.BoolVal(False),
+             blk_id=z3.IntVal(-1), ech_to=z3.IntVal(-1), erased_to=z3.IntVal(0), irregular=z3.BoolVal(False), last_nl=z3.BoolVal(False),
              interrupted=False, log=[])
     g.update(extra)
     return g
@@ -370,6 +381,8 @@ class VT:
             self.block(it)
         elif isinstance(it, PBlock):
             self.pblock(it)
+        elif isinstance(it, Placement):
+            self.placement(it)
         elif isinstance(it, Payload):
             p = g["parser"]
             if isinstance(p, tuple) and p[0] == "str":
@@ -507,8 +520,10 @@ class VT:
 
     def acct(self):
         g = self.g
-        return {k: g[k] for k in ("line_idx", "line_w", "written", "skipped", "blk_col", "blk_line", "blk_id", "irregular",
-                                   "row", "col", "sgr_default")}
+        a = {k: g[k] for k in ("line_idx", "line_w", "written", "skipped", "blk_col", "blk_line", "blk_id", "irregular",
+                                "row", "col", "sgr_default")}
+        a["erased_to"] = g.get("erased_to", 0)
+        return a
 
     def line_done(self, final):
         g = self.g
@@ -519,6 +534,7 @@ class VT:
             g[k] = z3.IntVal(0)
         for k in ("blk_col", "blk_line", "blk_id", "ech_to"):
             g[k] = z3.IntVal(-1)
+        g["erased_to"] = z3.IntVal(0)
         g["irregular"] = z3.BoolVal(False)
 
     def print_run(self, n, ch):
@@ -568,7 +584,10 @@ class VT:
             elif fin == "C":
                 c0 = self.ncol()
                 # skipped cells are "covered" only if they were erased just before (ECH n CUF n idiom)
-                covered = And(to_z3(g["ech_to"]) >= c0 + n)
+                covered = to_z3(g["ech_to"]) >= c0 + n
+                if g.get("img") is not None:
+                    ir0, ir1, ic0, ic1 = g["img"]
+                    covered = z3.Or(covered, z3.And(to_z3(ir0) <= to_z3(g["row"]), to_z3(g["row"]) < to_z3(ir1), to_z3(ic0) <= c0, c0 + n <= to_z3(ic1)))
                 g["col"] = Min(c0 + n, g["TW"] - 1)
                 g["line_w"] = g["line_w"] + n
                 g["skipped"] = g["skipped"] + If(covered, 0, n)
@@ -582,6 +601,7 @@ class VT:
             v = P(0)
             n = If(to_z3(v) >= 1, v, 1) if is_sym(v) else (v if v >= 1 else 1)
             g["ech_to"] = self.ncol() + n
+            g["erased_to"] = Max(g.get("erased_to", 0), self.ncol() + n)     # rightmost column touched by an erase on this line
         elif priv == "" and fin == "m":
             if not params:
                 g["sgr_default"] = z3.BoolVal(True)
@@ -628,12 +648,43 @@ class VT:
             raise Unsupported("conditional piece changes the parser state")
         merged = dict(before)
         for k, v in after.items():
-            if k in ("log", "parser", "cmd_open", "interrupted", "TW", "TH", "line_pred", "on_command"):
+            if k in ("log", "parser", "cmd_open", "interrupted", "TW", "TH", "line_pred", "on_command", "on_block", "on_placement", "glyphs", "placements"):
                 continue
+            if k not in before or isinstance(v, (tuple, dict)) or isinstance(before[k], (tuple, dict)):
+                if k in before and v is before[k]:
+                    continue
+                if k == "img" and k in before and before[k] is not None and v is not None:
+                    merged[k] = tuple(If(to_z3(it.c), a_, b_) for a_, b_ in zip(v, before[k]))
+                    continue
+                raise Unsupported(f"conditional piece changes structured terminal state {k!r}")
             if v is not before.get(k):
                 merged[k] = If(to_z3(it.c), v, before[k])
         merged["log"] = before["log"] + [("cond", it.c, after["log"][len(before["log"]):])]
         self.g = merged
+
+    def placement(self, p):
+        """image layer of [row, row + r) x [col, col + c) := the image; kitty (C=1) leaves the cursor, iTerm2 moves it to the
+        last line just past the image unless told not to"""
+        g = self.g
+        if g["parser"] != "ground":
+            self.oblige("complete-control-sequence", False, detail="graphics command inside an unterminated sequence")
+            g["parser"] = "ground"
+        c0 = self.ncol()
+        self.oblige("never-wraps", c0 + to_z3(p.c) <= to_z3(g["TW"]), kind="geometry")
+        self.oblige("never-scrolls", to_z3(g["row"]) + to_z3(p.r) - 1 <= to_z3(g["bottom"]), kind="geometry")
+        self.oblige("placement-size-positive", z3.And(to_z3(p.c) >= 1, to_z3(p.r) >= 1), kind="geometry")
+        g["img"] = (g["row"], g["row"] + p.r, c0, c0 + p.c)
+        g["placements"] = g.get("placements", 0) + 1
+        g["last_nl"] = z3.BoolVal(False)
+        if p.moves_cursor:
+            g["row"] = g["row"] + p.r - 1
+            g["col"] = Min(c0 + p.c, g["TW"] - 1) if False else c0 + p.c
+            g["line_w"] = g["line_w"] + p.c
+            g["written"] = g["written"] + p.c
+            g["irregular"] = If(to_z3(p.r) > 1, True, g["irregular"]) if False else g["irregular"]
+        g["log"] = g["log"] + [("placement", p)]
+        if g.get("on_placement") is not None:
+            g["on_placement"](self, p)
 
     def pblock(self, b):
         """contract of Padding.pad (C05 placement): occupies rows [row, row+PH) x cols [0, PW) from column 0"""
@@ -724,7 +775,7 @@ class VT:
             out["col"] = g0["col"] + nz * adv
             for key in ("line_w", "written", "skipped"):
                 out[key] = g0[key] + nz * z3.simplify(to_z3(g1[key]) - to_z3(g0[key]))
-            for key in ("sgr_default", "vis", "sync", "last_nl", "ech_to", "blk_col", "blk_line", "blk_id", "irregular"):
+            for key in ("sgr_default", "vis", "sync", "last_nl", "ech_to", "blk_col", "blk_line", "blk_id", "irregular", "erased_to"):
                 out[key] = If(nz >= 1, g1[key], g0[key])
             out["log"] = g0["log"] + [("rep", n, g1["log"][len(g0["log"]):])]
             self.g = out
@@ -739,14 +790,14 @@ class VT:
             gen["blk_line"] = k
         g2 = run_once(gen, [nz >= 2, k >= 1, k < nz], k)
         prem = z3.And(nz >= 2, k >= 1, k < nz)
-        for key in ("col", "line_w", "written", "skipped", "blk_col", "sgr_default", "irregular", "ech_to", "blk_id"):
+        for key in ("col", "line_w", "written", "skipped", "blk_col", "sgr_default", "irregular", "ech_to", "blk_id", "erased_to"):
             self.oblige(f"rep/fixpoint:{key}", z3.Implies(prem, to_z3(g2[key]) == to_z3(g1[key])))
         out = dict(g0)
         out["row"] = g0["row"] + nz * m
         out["bottom"] = Max(g0["bottom"], g0["row"] + nz * m)
         out["nl"] = g0["nl"] + nz * m
         out["line_idx"] = g0["line_idx"] + nz * m
-        for key in ("col", "line_w", "written", "skipped", "blk_col", "blk_id", "sgr_default", "vis", "sync", "last_nl", "ech_to", "irregular"):
+        for key in ("col", "line_w", "written", "skipped", "blk_col", "blk_id", "sgr_default", "vis", "sync", "last_nl", "ech_to", "irregular", "erased_to"):
             out[key] = If(nz >= 1, g1[key], g0[key])
         out["blk_line"] = If(nz >= 1, (nz if blk is not None else g1["blk_line"]), g0["blk_line"])
         out["log"] = g0["log"] + [("rep", n, g1["log"][len(g0["log"]):])]
